@@ -105,6 +105,8 @@ def dtype_family_ok(tname, dt):
     want = {"bool": ("bool", "boolean"), "i32": ("int32", "Int32"), "i8": ("int8", "Int8"), "i16": ("int16", "Int16"), "i32c": ("int32", "Int32"),
             "u8": ("uint8", "UInt8"), "u16": ("uint16", "UInt16"), "u32": ("uint32", "UInt32"), "i64": ("int64", "Int64"), "i64c": ("int64", "Int64"),
             "u64": ("uint64", "UInt64"), "f32": ("float32",), "f64": ("float64",)}.get(tname)
+    if tname in RC.DECIMALS:
+        return s == "float64"        # the documented reading of DECIMAL
     if want:
         return s in want or (s == "float64" and tname not in ("f32",))     # float64 = legacy null representation (C17's subject)
     if tname in ("date", "ts_ms", "ts_us", "ts_ns_l", "ts_us_l", "ts_ms_l", "i96"):
